@@ -3,6 +3,7 @@ import TapkeeVerif.Proofs.TsneBasic
 import TapkeeVerif.Proofs.TsneVp
 import TapkeeVerif.Proofs.TsneCsrTotal
 import TapkeeVerif.Proofs.TsneKL
+import TapkeeVerif.Proofs.TsneBisect
 import TapkeeVerif.Model.TsneRun
 import TapkeeVerif.Proofs.QuadTreeForces
 /-!
@@ -58,10 +59,34 @@ theorem bisect_found (H : K → K) (logPerp tol : K) (n : Nat)
     (foundOK_init H logPerp tol) h
   rw [abs_lt]; constructor <;> linarith [this.1, this.2]
 
-/- FULL STATEMENT (real analysis, not attempted): for the true entropy of a Gaussian row (continuous, strictly
-   decreasing from log(#entries) to log(#ties at the minimum)), every perplexity strictly between those limits is found
-   within 200 passes up to `tol`:  `bisect_converges`. -/
+/-- **`bisect_converges`**: for a strictly decreasing entropy oracle that takes the target value at some `b > 0` and is
+    continuous there (ε–δ form; any Archimedean ordered field), the loop `while (!found)` does set `found` after
+    finitely many passes, and the `β` it stops at is calibrated.  (The doubling phase ends because `2ⁿ` passes `b`, the
+    halving phase because `2⁻ⁿ` falls below it; from then on `β` is the midpoint of a bracket around `b` whose width
+    halves with every pass.)  The source additionally gives up after `bisectIters = 200` passes: whether the finite
+    number of passes is below that cap depends on `H` quantitatively and is not claimed. -/
+theorem bisect_converges [Archimedean K] (H : K → K) (hH : StrictAnti H) (b logPerp tol : K) (hb : H b = logPerp)
+    (hbpos : 0 < b) (htol : 0 < tol)
+    (hcont : ∃ δ, 0 < δ ∧ ∀ β, |β - b| < δ → H β - logPerp < tol ∧ -(H β - logPerp) < tol) :
+    ∃ n, (bisectIter H logPerp tol n bisectInit).found = true ∧
+      |H (bisectIter H logPerp tol n bisectInit).beta - logPerp| < tol := by
+  obtain ⟨n, hn⟩ := bisect_terminates H hH b logPerp tol hb hbpos htol hcont
+  exact ⟨n, hn, bisect_found H logPerp tol n hn⟩
 end
+
+/-- … over ℝ with `ContinuousAt` -/
+theorem bisect_converges_real (H : ℝ → ℝ) (hH : StrictAnti H) (b logPerp tol : ℝ) (hb : H b = logPerp)
+    (hbpos : 0 < b) (htol : 0 < tol) (hc : ContinuousAt H b) :
+    ∃ n, (bisectIter H logPerp tol n bisectInit).found = true ∧
+      |H (bisectIter H logPerp tol n bisectInit).beta - logPerp| < tol := by
+  obtain ⟨n, hn⟩ := bisect_terminates_real H hH b logPerp tol hb hbpos htol hc
+  exact ⟨n, hn, bisect_found H logPerp tol n hn⟩
+
+/-- non-vacuity: `H β = -β`, target `-3`: found after finitely many passes (1, 2, 4, 3) -/
+example : ∃ n, (bisectIter (fun β : ℝ => -β) (-3) (1 / 10) n bisectInit).found = true ∧
+    |(fun β : ℝ => -β) (bisectIter (fun β : ℝ => -β) (-3) (1 / 10) n bisectInit).beta - (-3)| < 1 / 10 :=
+  bisect_converges_real (fun β => -β) (fun _ _ h => neg_lt_neg h) 3 (-3) (1 / 10) rfl (by norm_num) (by norm_num)
+    continuous_neg.continuousAt
 
 /-! ### dense joint similarities -/
 section
